@@ -476,6 +476,9 @@ RULE = ("dependency graphs over <=3 resources (sync/async factories with an inne
 from vmc.tables import _ROUND6 as _R6  # noqa: E402
 
 RULE += _R6["C22"]
+from vmc.tables import _ROUND7 as _R7  # noqa: E402
+
+RULE += _R7["C22"]
 
 
 
